@@ -187,6 +187,26 @@ def _contract(bid, dbl, enc, vn, decl, stats=None):
     ok = (back.level == bid // 5 + 1 and back.trump is be.SUIT[bid % 5] and back.vul is be.VUL[vn]
           and back.declarer is be.SEAT[decl] and be.dbl_status(back) == dbl and not back.is_passed_out())
     check(ok, 'contract text does not parse back to the same contract', case, {'got': repr(back)})
+    if decl == (bid + dbl) % 4:
+        # a contract that came out of the parser is a contract like any other: contracts derived from it (another bid and
+        # doubling by dataclasses.replace, a copy, a pickle round trip) have the text of THEIR values and parse back to them
+        import copy
+        import dataclasses
+        import pickle
+        nb, ndbl = (bid * 7 + 3 + decl) % 35, (dbl + 1 + decl % 2) % 3
+        for what, mk, eb, ed in (('dataclasses.replace(final_bid, x, xx) on a parsed contract', lambda: dataclasses.replace(back, final_bid=be.BID[nb], x=ndbl >= 1, xx=ndbl == 2), nb, ndbl),
+                                 ('dataclasses.replace(x, xx) on a parsed contract', lambda: dataclasses.replace(back, x=ndbl >= 1, xx=ndbl == 2), bid, ndbl),
+                                 ('copy.copy of a parsed contract', lambda: copy.copy(back), bid, dbl),
+                                 ('pickle round trip of a parsed contract', lambda: pickle.loads(pickle.dumps(back)), bid, dbl)):
+            dcase = dict(case, derived_by=what)
+            d = guard('deriving a contract raises', dcase, mk)
+            t2 = str(d)
+            check(t2 == A.call_name(eb) + ('', 'X', 'XX')[ed], 'text of a derived contract is not the text of its values', dcase, {'got': t2})
+            b2 = guard('str_to_contract raises', dcase, Contract.str_to_contract, fresh(t2), d.vul, d.declarer)
+            check(b2.level == eb // 5 + 1 and b2.trump is be.SUIT[eb % 5] and be.dbl_status(b2) == ed and b2.vul is be.VUL[vn] and b2.declarer is be.SEAT[decl],
+                  'text of a derived contract does not parse back to it', dcase, {'got': repr(b2)})
+            if stats is not None:
+                stats.evaluated()
     if decl == 0:
         # the declarer is an optional argument of the parser
         nd = guard('str_to_contract raises without a declarer', case, Contract.str_to_contract, fresh(text), be.VUL[vn])
